@@ -1,5 +1,5 @@
 PROP = dict(
-    coq=["Queue/QueueHarness.vo"],
+    coq=["Queue/QueueHarness.vo", "Stage/OutlinksHarness.vo"],
     legs=[
         dict(driver="hqpath", binary="zqueue", quick=400, thorough=6000, shard=100,
              monitors=["hops_roundtrip (pathToHops(hopsToPath h) = h)", "path_is_L_only_and_count_is_number_of_L"]),
@@ -12,6 +12,10 @@ PROP = dict(
         dict(driver="lqflow", binary="zqueue", quick=14, thorough=100, shard=2, noshrink=True,
              monitors=["lq_no_value_twice_in_table", "lq_every_outlink_queued_with_fields", "lq_seed_roundtrip_id_text_via_hops",
                        "lq_acks_by_id"]),
+        # "...each outlink is handed to the queue with its hop count and its parent page as via": the hop count and via the
+        # postprocessor gives an outlink (real postprocessItem on synthetic pages; driver of C06; its monitors 0 and 3)
+        dict(driver="hops", corpus_from="C06", quick=600, thorough=20000, shard=600, only_monitors=[0, 3],
+             monitors=["outlink_hop_rule", "(C06)", "(C06)", "outlink_via_is_parent_page"]),
     ],
     search_mult=3,
     partial="Shutdown is outside this property (after Stop the machine does not move and what is in flight stays undelivered: "
